@@ -723,3 +723,203 @@ Proof.
   intros H F. destruct (re_header l) eqn:R; [|reflexivity].
   apply (re_header_is_hdr l H) in R. congruence.
 Qed.
+
+(* ================================================================ L5: the round trip of one line *)
+Definition line_cm (c m : str) (d : bool) : str :=
+  if nonempty (strip m) then (if d then m else c ++ ";" :: " " :: m) else c ++ m.
+
+Lemma line_of_cm p : line_of p = line_cm (p_content p) (p_comment p) (p_directive p).
+Proof. reflexivity. Qed.
+
+Definition rt_ok (l l' : str) : Prop :=
+  l' <> [] /\ ~ In ch_nl (removelast l') /\ last_is ch_nl l' = last_is ch_nl l /\
+  is_hdr l' = false /\ re_header l' = false /\ spec_entry l' = spec_entry l.
+
+Lemma rt_ok_intro l l' : line_ok l -> is_hdr l = false ->
+  l' <> [] -> ~ In ch_nl (removelast l') -> last_is ch_nl l' = last_is ch_nl l ->
+  (hd_shape (lstrip l') = true -> hd_shape (lstrip l) = true) ->
+  spec_entry l' = spec_entry l -> rt_ok l l'.
+Proof.
+  intros Hl Hh N1 N2 La Sh Sp.
+  assert (is_hdr l' = false) as Hh'.
+  { destruct (is_hdr l') eqn:E; [|reflexivity].
+    apply is_hdr_shape in E. apply Sh in E. apply (shape_is_hdr l (proj2 Hl)) in E. congruence. }
+  unfold rt_ok. repeat split; try assumption.
+  apply is_hdr_false_re_header; [split; assumption | exact Hh'].
+Qed.
+
+Lemma rt_ok_refl l : line_ok l -> is_hdr l = false -> rt_ok l l.
+Proof.
+  intros Hl Hh. apply rt_ok_intro; auto; [exact (proj1 Hl) | exact (proj2 Hl)].
+Qed.
+
+Lemma tail_transfer a a' m : m <> [] -> (In ch_nl a' -> In ch_nl a) ->
+  ~ In ch_nl (removelast (a ++ m)) ->
+  ~ In ch_nl (removelast (a' ++ m)) /\ last_is ch_nl (a' ++ m) = last_is ch_nl (a ++ m).
+Proof.
+  intros Nm Ha N. split.
+  - rewrite removelast_app in * by exact Nm. intros F. apply N.
+    apply in_app_or in F. apply in_or_app. destruct F as [F|F]; [left; apply Ha; exact F | right; exact F].
+  - rewrite !last_is_app by exact Nm. reflexivity.
+Qed.
+
+Lemma mem_app c a b : mem c (a ++ b) = mem c a || mem c b.
+Proof. unfold mem. apply existsb_app. Qed.
+
+Lemma shape_app c X X' : mem "]" X' = mem "]" X -> hd_shape (lstrip X') = false ->
+  hd_shape (lstrip (c ++ X')) = true -> hd_shape (lstrip (c ++ X)) = true.
+Proof.
+  intros M F. destruct (lstrip_cases c) as [[Hc _]|[w [d [r [E [Hw [Hd _]]]]]]].
+  - rewrite (lstrip_app_space c X' Hc). congruence.
+  - subst c. rewrite !lstrip_app_stop by assumption. simpl.
+    rewrite !mem_app. rewrite M. auto.
+Qed.
+
+Lemma nonblank_ne s : is_blank s = false -> s <> [].
+Proof. intros H E. subst s. discriminate. Qed.
+
+Lemma strip_cons_ne s x r : strip s = x :: r -> s <> [].
+Proof. intros H E. subst s. discriminate. Qed.
+
+Lemma pil_case_roundtrip l c m : pil_case l c m -> line_ok l -> is_hdr l = false ->
+  (line_cm c m (startswith "#" l) = [] /\ entry_nonblank (spec_entry l) = false) \/
+  rt_ok l (line_cm c m (startswith "#" l)).
+Proof.
+  intros [B Ec Em | B S Ec Em | S El Ec | S El N Nc Nm | S El N Nc Em | B S N Ec Em] Hl Hh.
+  - (* blank *)
+    left. subst c m. split; [reflexivity|]. rewrite spec_entry_blank by exact B. reflexivity.
+  - (* directive *)
+    right. subst c m. unfold line_cm. rewrite S.
+    destruct (strip l) as [|x r] eqn:E.
+    + apply strip_nil_iff in E. congruence.
+    + simpl. apply rt_ok_refl; assumption.
+  - (* ';' in column 0 *)
+    subst c. unfold line_cm. rewrite S.
+    assert (spec_entry l = ([], strip m)) as Sp.
+    { subst l. apply (spec_entry_cut [] m S). simpl. tauto. }
+    destruct (strip m) as [|x r] eqn:E; simpl.
+    + assert (is_blank m = true) as Bm by (apply strip_nil_iff; exact E).
+      destruct m as [|y m'] eqn:Em.
+      * left. split; [reflexivity|]. rewrite Sp. reflexivity.
+      * right. rewrite <- Em in *. assert (m <> []) as Nm by (rewrite Em; discriminate).
+        destruct (tail_transfer [";"] [] m Nm) as [T1 T2].
+        { simpl. tauto. } { change ([";"] ++ m) with (";" :: m). rewrite <- El. exact (proj2 Hl). }
+        apply rt_ok_intro; try assumption.
+        -- rewrite El. exact T2.
+        -- rewrite (lstrip_all m Bm). discriminate.
+        -- rewrite Sp. apply spec_entry_blank. exact Bm.
+    + right. assert (m <> []) as Nm by (eapply strip_cons_ne; exact E).
+      destruct (tail_transfer [";"] [";"; " "] m Nm) as [T1 T2].
+      { simpl. intros [F|[F|[]]]; discriminate. }
+      { change ([";"] ++ m) with (";" :: m). rewrite <- El. exact (proj2 Hl). }
+      apply rt_ok_intro; try assumption.
+      * discriminate.
+      * rewrite El. exact T2.
+      * rewrite (lstrip_cons_stop ";" (" " :: m) sp_semi). discriminate.
+      * rewrite Sp. change (";" :: " " :: m) with ([] ++ ";" :: (" " :: m)).
+        rewrite (spec_entry_cut [] (" " :: m)); [|reflexivity|simpl; tauto]. simpl split_ws.
+        rewrite (strip_cons_space " " m sp_blank). rewrite E. reflexivity.
+  - (* ';' inside *)
+    right. unfold line_cm. rewrite S.
+    assert (spec_entry l = (split_ws c, strip m)) as Sp.
+    { subst l. apply spec_entry_cut; assumption. }
+    assert (startswith "#" c = false) as Sc.
+    { rewrite El in S. rewrite startswith_app in S by exact Nc. exact S. }
+    assert (l = (c ++ [";"]) ++ m) as El2.
+    { rewrite El. rewrite <- app_assoc. reflexivity. }
+    assert (~ In ch_nl (removelast ((c ++ [";"]) ++ m))) as Nl.
+    { rewrite <- El2. exact (proj2 Hl). }
+    destruct (strip m) as [|x r] eqn:E; simpl.
+    + assert (is_blank m = true) as Bm by (apply strip_nil_iff; exact E).
+      destruct (tail_transfer (c ++ [";"]) c m Nm) as [T1 T2]; [|exact Nl|].
+      { intros F. apply in_or_app. left. exact F. }
+      apply rt_ok_intro; try assumption.
+      * intros F. apply app_eq_nil in F. destruct F as [F _]. contradiction.
+      * rewrite El2. exact T2.
+      * rewrite El. apply shape_app; [reflexivity|]. rewrite (lstrip_all m Bm). reflexivity.
+      * rewrite Sp. rewrite spec_entry_nosemi.
+        -- rewrite split_ws_app_space_r by exact Bm. reflexivity.
+        -- rewrite startswith_app by exact Nc. exact Sc.
+        -- intros F. apply in_app_or in F. destruct F as [F|F]; [contradiction|].
+           exact (blank_not_In ";" m sp_semi Bm F).
+    + destruct (tail_transfer (c ++ [";"]) (c ++ [";"; " "]) m Nm) as [T1 T2]; [|exact Nl|].
+      { intros F. apply in_app_or in F. apply in_or_app. destruct F as [F|F]; [left; exact F|].
+        simpl in F. destruct F as [F|[F|[]]]; discriminate. }
+      replace (c ++ ";" :: " " :: m) with ((c ++ [";"; " "]) ++ m) by (rewrite <- app_assoc; reflexivity).
+      apply rt_ok_intro; try assumption.
+      * intros F. apply app_eq_nil in F. destruct F as [_ F]. contradiction.
+      * rewrite El2. exact T2.
+      * rewrite El. rewrite <- app_assoc. apply shape_app; [reflexivity|].
+        change ([";"; " "] ++ m) with (";" :: " " :: m).
+        rewrite (lstrip_cons_stop ";" (" " :: m) sp_semi). reflexivity.
+      * rewrite Sp. rewrite <- app_assoc. change ([";"; " "] ++ m) with (";" :: " " :: m).
+        rewrite spec_entry_cut; [| rewrite startswith_app by exact Nc; exact Sc | exact N].
+        rewrite (strip_cons_space " " m sp_blank). rewrite E. reflexivity.
+  - (* ';' last *)
+    right. subst m. unfold line_cm. rewrite S. simpl. rewrite app_nil_r.
+    assert (spec_entry l = (split_ws c, [])) as Sp.
+    { subst l. rewrite spec_entry_cut; [reflexivity | exact S | exact N]. }
+    assert (startswith "#" c = false) as Sc.
+    { rewrite El in S. rewrite startswith_app in S by exact Nc. exact S. }
+    assert (~ In ch_nl c) as Nn.
+    { pose proof (proj2 Hl) as K. rewrite El in K. rewrite removelast_last in K. exact K. }
+    apply rt_ok_intro; try assumption.
+    + intros F. apply Nn. apply In_removelast. exact F.
+    + rewrite El. rewrite last_is_snoc. simpl.
+      destruct (last_is ch_nl c) eqn:La; [|reflexivity]. apply last_is_In in La. contradiction.
+    + rewrite El. rewrite <- (app_nil_r c) at 1. apply shape_app; reflexivity.
+    + rewrite Sp. apply spec_entry_nosemi; assumption.
+  - (* no ';' *)
+    right. subst c m. unfold line_cm. rewrite S. simpl. rewrite app_nil_r.
+    apply rt_ok_refl; assumption.
+Qed.
+
+Lemma line_roundtrip : forall k l p, line_ok l -> is_hdr l = false -> parse_line k l = Ok p ->
+  let l' := line_of p in
+  (l' = [] /\ entry_nonblank (spec_entry l) = false) \/
+  (l' <> [] /\ ~ In ch_nl (removelast l') /\ (last_is ch_nl l' = last_is ch_nl l) /\
+   is_hdr l' = false /\ re_header l' = false /\ spec_entry l' = spec_entry l).
+Proof.
+  intros k l p Hl Hh H. apply parse_line_inv in H. destruct H as [H1 [_ H3]].
+  apply parse_itp_line_cases in H1. destruct H1 as [C _].
+  simpl. rewrite line_of_cm. rewrite H3.
+  exact (pil_case_roundtrip l _ _ C Hl Hh).
+Qed.
+
+(* ================================================================ L6: parsing the written line again *)
+Lemma fields_of_entry_eq : forall k l l', spec_entry l' = spec_entry l ->
+  fields_of k (fst (spec_entry l')) = fields_of k (fst (spec_entry l)).
+Proof. intros k l l' H. rewrite H. reflexivity. Qed.
+
+Lemma reparse_of_entry k l p x : parse_line k l = Ok p ->
+  re_header x = false -> spec_entry x = spec_entry l ->
+  exists p', parse_line k x = Ok p' /\ entry_of p' = entry_of p /\ p_fields p' = p_fields p.
+Proof.
+  intros H R Sp. destruct (parse_line_entry k l p H) as [E [F _]].
+  rewrite <- (fields_of_entry_eq k l x Sp) in F.
+  destruct (parse_line_complete k x _ R F) as [p' H'].
+  exists p'. split; [exact H'|].
+  destruct (parse_line_entry k x p' H') as [E' [F' _]].
+  split; [congruence|]. rewrite F in F'. inversion F'. reflexivity.
+Qed.
+
+Lemma line_reparse : forall k l p, line_ok l -> is_hdr l = false -> parse_line k l = Ok p ->
+  line_of p <> [] ->
+  exists p', parse_line k (line_of p) = Ok p' /\ entry_of p' = entry_of p /\ p_fields p' = p_fields p.
+Proof.
+  intros k l p Hl Hh H N.
+  destruct (line_roundtrip k l p Hl Hh H) as [[E _]|[_ [_ [_ [_ [R Sp]]]]]]; [contradiction|].
+  exact (reparse_of_entry k l p (line_of p) H R Sp).
+Qed.
+
+Lemma line_reparse_nl : forall k l p, line_ok l -> is_hdr l = false -> parse_line k l = Ok p ->
+  line_of p <> [] -> last_is ch_nl (line_of p) = false ->
+  exists p', parse_line k (line_of p ++ [ch_nl]) = Ok p' /\ entry_of p' = entry_of p /\
+             p_fields p' = p_fields p.
+Proof.
+  intros k l p Hl Hh H N La.
+  destruct (line_roundtrip k l p Hl Hh H) as [[E _]|[_ [Nn [_ [_ [R Sp]]]]]]; [contradiction|].
+  assert (~ In ch_nl (line_of p)) as Nn' by (apply not_In_of_removelast_last; assumption).
+  destruct (spec_entry_add_nl (line_of p) N Nn') as [S1 [_ S3]].
+  apply (reparse_of_entry k l p (line_of p ++ [ch_nl]) H); congruence.
+Qed.
